@@ -92,6 +92,21 @@ def main():
                    "subscription; every other chain lets members miss a round and report a stale generation), validity + KIP-54 "
                    "balance after every round, seed %d" % (nch, a.seed),
           "failures": fails[:10], "failures_total": len(fails), "replay": {"script": REPLAY_ROUNDS}})
+    n, fails = arbitrary_user_data_sweep(a.seed, 20000 if a.tier == "quick" else 400000)
+    emit({"name": "sticky-arbitrary-user-data-random", "exhaustive": False, "cases": n, "distinct_nontrivial": n,
+          "bound": "%d seeded groups (<= 4 members, 3 topics, 4 partitions each) whose reported previous assignments are arbitrary: "
+                   "claims by members that dropped the topic since (every other case), stale claims under a lower generation; "
+                   "validity + KIP-54 balance; seed %d" % (n, a.seed),
+          "failures": fails[:10], "failures_total": len(fails), "replay": {"script": REPLAY_ARB % a.seed}})
+
+
+REPLAY_ARB = '''
+import sys
+sys.path.insert(0, "/verif")
+from bounded import C14
+n, fails = C14.arbitrary_user_data_sweep(%d, 20000, jobs=8)
+VIOLATED = bool(fails); DETAIL = "sticky assignor with arbitrary user data: %%d of %%d groups fail; first: %%r" %% (len(fails), n, fails[:1])
+'''
 
 
 # ------------------------------------------------------------------ sticky with previous assignments
@@ -200,6 +215,65 @@ def mixed_chains_sweep(seed, n_chains, jobs=16):
             n += a
             fails.extend(f)
     return n, fails
+
+
+def _arbitrary_user_data(args):
+    """previous-assignment user data that is not the assignor's own last output: members report partitions of topics
+    they have since dropped (a subscription change is exactly what triggers such a rebalance), some members missed a
+    round and report a stale view under a lower generation (two claims on one partition)"""
+    seed, n = args
+    from aiokafka.coordinator.protocol import ConsumerProtocolMemberMetadata
+    from aiokafka.structs import TopicPartition
+    from bounded.assign_common import Cluster
+    rnd = random.Random(seed)
+    A = assignors()["sticky"]
+    fails = []
+    for i in range(n):
+        only_subscribed = bool(i % 2)
+        nt = rnd.randint(1, 3)
+        topics = ["t%d" % j for j in range(nt)]
+        parts = {t: rnd.randint(0, 4) for t in topics}
+        members = ["m%d" % j for j in range(rnd.randint(1, 4))]
+        subs = {m: rnd.sample(topics, rnd.randint(1, nt)) for m in members}
+        claims, stale = {m: [] for m in members}, {m: [] for m in members}
+        for t in topics:
+            for p in range(parts[t]):
+                cands = [m for m in members if (t in subs[m] or not only_subscribed)]
+                if cands and rnd.random() < 0.8:
+                    o = rnd.choice(cands)
+                    claims[o].append(TopicPartition(t, p))
+                    others = [m for m in cands if m != o]
+                    if others and rnd.random() < 0.3:
+                        stale[rnd.choice(others)].append(TopicPartition(t, p))
+        mm, reported = {}, {}
+        for m in members:
+            if stale[m] and rnd.random() < 0.7:
+                mm[m], reported[m] = A._metadata(sorted(subs[m]), stale[m], 1), (1, [tuple(x) for x in stale[m]])
+            elif claims[m] or rnd.random() < 0.5:
+                mm[m], reported[m] = A._metadata(sorted(subs[m]), claims[m], 2), (2, [tuple(x) for x in claims[m]])
+            else:
+                mm[m] = ConsumerProtocolMemberMetadata(A.version, sorted(subs[m]), b"")
+        try:
+            out = A.assign(Cluster(parts), mm)
+            res = {m: [(t, p) for t, ps in x.assignment for p in ps] for m, x in out.items()}
+            errs = check_valid(parts, subs, res) + check_balance("sticky", parts, subs, res)
+        except Exception as e:
+            errs = ["raised %s: %s" % (type(e).__name__, e)]
+        if errs:
+            fails.append({"assignor": "sticky", "partitions": parts, "subscriptions": subs, "reported": reported, "errors": errs[:3]})
+            if len(fails) >= 5:
+                break
+    return n, fails
+
+
+def arbitrary_user_data_sweep(seed, n, jobs=16):
+    per = max(1, n // jobs)
+    total, fails = 0, []
+    with mp.Pool(jobs) as pool:
+        for a, f in pool.imap_unordered(_arbitrary_user_data, [(seed * 1000 + j, per) for j in range(jobs)]):
+            total += a
+            fails.extend(f)
+    return total, fails
 
 
 REPLAY_ROUNDS = '''
